@@ -244,6 +244,21 @@ def laundering_programs():
     return out
 
 
+def callcut_annotation_programs():
+    """x : ANN S <- new f(p) for every mode of the callee and every way of writing the annotation's mode (omitted, each mode): accepted iff the
+    annotation, with an omitted mode read as replicable, is the callee's type (C16: an unannotated type is replicable wherever it is written;
+    C07: the annotation must equal the callee's type)"""
+    out = []
+    for S in ("1", "1 * 1", "+{l : 1}", "1 -* 1"):
+        for M in ("lin", "aff", "mul", "rep"):
+            for ANN in ("", "lin", "aff", "mul", "rep"):
+                t = ("%s (%s)" % (M, S)) if " " in S else "%s %s" % (M, S)
+                a = (("%s (%s)" % (ANN, S)) if " " in S else "%s %s" % (ANN, S)).strip()
+                out.append(("callcut/%s-%s-%s" % (S.replace(" ", ""), M, ANN or "none"),
+                            "let f(q : %s) : %s = fwd self q\nlet g(p : %s) : %s = x : %s <- new f(p); fwd self x\n" % (t, t, t, t, a)))
+    return out
+
+
 def corpus_texts(tier, seed):
     import rt
     texts = [(p["name"], p["text"]) for p in rt.fixed_corpus()]
@@ -281,6 +296,7 @@ def stage(tier=None, seed=None):
             texts += shadow_programs()
             texts += alias_mode_programs()
             texts += laundering_programs()
+            texts += callcut_annotation_programs()
             muts = token_mutants(texts, rng, 700 if tier == "quick" else 10000)
             cases = cases_for(texts + muts)
             fails, errs, states = validate(cases, work)
@@ -301,17 +317,22 @@ def stage(tier=None, seed=None):
         lock.close()
 
 
+# directed families are also reported by the property they were built for (the relaxation classes attribute by cause, these by purpose)
+FAMILY_PROPS = {"callcut": ("C16", "C07"), "launder": ("C05", "C06", "C07"), "alias": ("C06", "C05", "C16"), "shadow": ("C05",), "ann": ("C10",)}
+
+
 def report(v, pid, st):
     """add the oracle's failures of class pid to the verdict collector; returns coverage fields"""
     for e in st["errors"]:
         v.harness_errors.append("TypingConf: " + e)
     for f in st["failures"]:
-        if f["cls"] != pid:
+        fam = f["name"].split("/")[0].split("~")[0] if "/" in f["name"] else ""
+        if f["cls"] != pid and pid not in FAMILY_PROPS.get(fam, ()):
             continue
         if f["verdict"] == "accept":
             what = "accepted, but it has no derivation in the type system (Typing.tla)%s: %s" % (
                 {"C05": "; it has one once the substructural discipline is dropped", "C06": "; it has one once the declaration of independence is dropped", "C07": "",
-                 "C10": "; it has one once annotation types need not be well-formed"}[pid],
+                 "C10": "; it has one once annotation types need not be well-formed"}.get(f["cls"] if f["cls"] == pid else "", ""),
                 f["text"].replace("\n", " ; ")[:400])
         else:
             what = "rejected (%s), but it is derivable in the type system (Typing.tla): %s" % (f["detail"][:160], f["text"].replace("\n", " ; ")[:400])
